@@ -309,7 +309,7 @@ func c06Rule() {
 	hx.Rec("C06").SetRule("cases: a reference-model PMT (program number, version, current_next, PCR PID, 0..3 program descriptors, 0..12 streams with distinct PIDs and 0..4 descriptors each incl. 'probe' descriptors whose body content is observable through the decoders; section_length <= 1021, sometimes exactly 1021) x a carrier (pointer_field 0..255 with 0xFF filler; values above 184 only for the payload-level API, 0..2 complete sections before (other table ids, one time in six another program map section), 0..200 trailing 0xFF) x a packetisation (payload sizes 1..184 per packet via adaptation-field stuffing or payload-side padding of the last packet, 0..3 other-PID packets before any packet). Oracle: the model. NewPMT(payload), ReadPMT(stream): stream list (type, PID, descriptor tags, probe values), Pids, version, current_next; PmtAccumulatorDoneFunc on every prefix (payloads <= 400 bytes) or on packet boundaries, +-3 bytes around section start/end and 48 more lengths; ExtractCRC for pointer 0; header accessors = first section. Enumerated: TableHeader encode/decode identity over all 2^20 (table_id, flags, section_length 0..1023). Non-trivial: (>= 2 packets or pointer_field > 0 or a preceding section) and >= 1 stream with >= 1 descriptor.",
 		"prefixes ending exactly at an inner section boundary are not asserted for the completion predicate (both clauses of the statement apply there)",
 		"ReadPMT is asserted for PMTs with >= 1 stream, streams whose first PMT-PID packet is the unit start, and packetisations without a packet boundary exactly at the start of a section that follows complete sections (ISO requires a new unit start there)",
-		"exactly one table_id 0x02 section per payload; distinct elementary PIDs")
+		"the subject PMT is the last table_id 0x02 section of the payload (earlier complete sections may be program map sections of other programs); distinct elementary PIDs")
 }
 
 func TestC06(t *testing.T) {
